@@ -91,6 +91,11 @@ void MEDDLY::binary_operation::compute(const dd_edge &ar1,
     if (!checkForestCompatibility()) {
         throw error(error::INVALID_OPERATION, __FILE__, __LINE__);
     }
+    // The result is a node handle of resF; it must not be stored
+    // in an edge that is attached to another forest.
+    if (!res.isAttachedTo(resF)) {
+        throw error(error::FOREST_MISMATCH, __FILE__, __LINE__);
+    }
 #ifdef ALLOW_OLD_BINARY_0_17_6
     if (new_style) {
         node_handle resp;
